@@ -335,7 +335,7 @@ def wiring(P, R, xq, b):
                         if u.ev['k'] == 'bitset' and core.is_req_flags(u.ev.get('set')):
                             later.append(u)
                         if u.ev['k'] == 'call' and u.ev.get('callee') in ('strncpy', 'strlcpy', 'memcpy') and u.ev['args'] and root_var(u.ev['args'][0]) is not None \
-                                and root_var(u.ev['args'][0]).get('t', '').startswith('struct iauth_request'):
+                                and root_var(u.ev['args'][0]).get('t', '').replace('const ', '').startswith('struct iauth_request'):
                             later.append(u)
                 R.ob('C06.WIRE.1', not later, t, 'the modules are notified after the field is stored and the flag set', key='order:%s' % chr(v), detail=[u.loc for u in later] or None)
             if chr(v) == 'U' and calls:
@@ -401,7 +401,7 @@ def username_content(P, b, sends):
         return out
 
     def kill(t):
-        if t.ev['k'] == 'store' and is_var(t.ev.get('lhs')) and t.ev['lhs'].get('t', '').startswith('struct iauth_xquery_service'):
+        if t.ev['k'] == 'store' and is_var(t.ev.get('lhs')) and t.ev['lhs'].get('t', '').replace('const ', '').startswith('struct iauth_xquery_service'):
             return ('tLOGIN',)
         return ()
 
